@@ -65,6 +65,21 @@ CLAIMED = {
              'double-precision re-derivation to 5e-10 relative.',
         technique='path-sensitive abstract interpretation + name-derived oracle; generated-table validation against data files',
     ),
+    'C08': dict(
+        category='other',
+        text='Static term-by-term comparison of the cascade implementation with the model stated in the property: the 32 '
+             'P<shell>_<kind> vacancy functions on every subset of open inner shells (1 600+ abstract paths, exact normal '
+             'forms), the 46 hand-expanded Auger-sum branches (~2 000 terms) against the multiset of Auger macros leaving a '
+             'hole in the target shell with hole multiplicity, shell dispatch of the four variants (inner vacancies computed '
+             'by the same variant, passed in shell order), the line->shell mapping table against the macro ranges, the four '
+             'line bodies, delegation of the un-suffixed functions, and the build-time filling of both constant tables. '
+             'Exhaustive over the enumerated terms; it is a necessary-and-structural check, not a numerical one.',
+        design_ref='DESIGN.md section 2, C08',
+        note='Trusted: clang front end, E1/E2/E3 engines, radrate.dat reader. Coster-Kronig-type Auger macros are '
+             'don\'t-cares inside sums. Numeric orderings and the interpolation of the Kissel partial cross sections are not '
+             'decided here (C02). Known findings: PM1<-K Auger sum omits 22 terms (F15); M-M lines outside line_mappings (F22).',
+        technique='path-sensitive abstract interpretation + exact polynomial normal forms vs name-derived multisets',
+    ),
 }
 
 NOT_YET = {}
